@@ -1,11 +1,12 @@
 /-
   C08 — `compileS`: a compositional presentation of the code emission for the STAGE-1 fragment
-  (try/catch/finally, while/do/for loops, break/continue [label], return, throw, labelled statements,
-  if, block scope, with; no for-in/of, switch, uncatchable; no finally block with a top-level
-  break/continue).  It produces the same instruction list as the back-patching `compileCF`
-  (checked by the driver on every generated stage-1 program, op `A`, field S1), but jump targets are
+  (try/catch/finally, while/do/for loops, `for (let …;;)` with its per-iteration scope, two-clause switch,
+  break/continue [label], return, throw, uncatchable error, labelled statements, if, block scope, with;
+  no for-in/of; no finally block that starts with a top-level break/continue).  It produces the same
+  instruction list as the back-patching `compileCF` (theorem compileS_eq_compileCF in CompileSProps; the driver
+  still evaluates the equality on every generated stage-1 program, op `A`, field S1), but jump targets are
   computed up front from statement lengths, so that it can be reasoned about by structural induction
-  (GojaModel.C08.CompileSLemmas, theorem compileS_correct).  Core Lean only.
+  (GojaModel.C08.CompileSSim, theorem compileS_correct).  Core Lean only.
 -/
 import GojaModel.C08.Compile
 
@@ -21,6 +22,7 @@ inductive BI
   | with_
   /-- per-iteration scope of a `for (let …;;)` loop (blockIterScope); always directly above its loop entry -/
   | iscope
+  | switch_ (brkPc : Nat)
   deriving DecidableEq, Repr
 
 /-- shape of a context entry (no positions) -/
@@ -31,6 +33,7 @@ inductive BS
   | scope
   | with_
   | iscope
+  | switch_
   deriving DecidableEq, Repr
 
 def BI.shape : BI → BS
@@ -40,6 +43,7 @@ def BI.shape : BI → BS
   | .scope _ => .scope
   | .with_ => .with_
   | .iscope => .iscope
+  | .switch_ _ => .switch_
 
 def labMatch (l : Option Label) (lab : Option Label) : Bool :=
   match l with
@@ -76,6 +80,9 @@ def findBrk (l : Option Label) (isBreak : Bool) : List BI → Option (List Instr
     match findBrk l isBreak rest with
     | some (ex, t) => some (Instr.leaveWith :: ex, t)
     | none => none
+  | .switch_ bp :: rest =>
+    -- an unlabelled `break` targets the innermost loop OR switch; `continue` and labelled branches pass through
+    if isBreak && l.isNone then some ([], bp) else findBrk l isBreak rest
   | .iscope :: rest =>
     -- emitBlockExitCode:618: `continue` of the loop that owns this per-iteration scope does not leave it
     match findBrk l isBreak rest with
@@ -91,6 +98,7 @@ def exitLen (l : Option Label) (isBreak : Bool) : List BS → Option Nat
   | .scope :: rest => (exitLen l isBreak rest).map (· + 1)
   | .with_ :: rest => (exitLen l isBreak rest).map (· + 1)
   | .iscope :: rest => (exitLen l isBreak rest).map (fun k => if !isBreak && hitsHeadS l rest then k else k + 1)
+  | .switch_ :: rest => if isBreak && l.isNone then some 0 else exitLen l isBreak rest
 
 /-- compileReturnStatement's exit code (compiler_stmt.go:739), stage 1 (no for-in/of) -/
 def retExitsS : List BI → List Instr
@@ -134,7 +142,7 @@ def glen : Stmt → Option Label → List BS → Nat
   | .loop .forlet _ _ body, lab, sh => 5 + glen body none (.iscope :: .loop lab :: sh) + 4
   | .forOf _ _, _, _ => 0
   | .lbl l s, _, sh => if isLoop s then glen s (some l) sh else glen s none (.label l :: sh)
-  | .sw _ _ _ _, _, _ => 0
+  | .sw _ _ a b, _, sh => 15 + glen a none (.switch_ :: sh) + glen b none (.switch_ :: sh)
   | .withS s, _, sh => 2 + glen s none (.with_ :: sh) + 1
   | .blk s, _, sh => 1 + glen s none (.scope :: sh) + 1
   | .ifIter _ s, _, sh => 2 + glen s none sh
@@ -211,7 +219,17 @@ def gen : Stmt → Nat → Option Label → List BI → Nat → List Instr
   | .lbl l s, cur, _, ctx, pc =>
     if isLoop s then gen s cur (some l) ctx pc
     else gen s cur none (.label l (pc + glen s none (.label l :: ctx.map BI.shape)) :: ctx) pc
-  | .sw _ _ _ _, _, _, _, _ => []
+  | .sw u k a b, cur, _, ctx, pc =>
+    -- compiler_stmt.go:1013: selector; per clause `dup; <test>; strictEq; jneP 3; pop; jump body`; `pop; jump end`; bodies
+    let la := glen a none (.switch_ :: ctx.map BI.shape)
+    let lb := glen b none (.switch_ :: ctx.map BI.shape)
+    let e := pc + 15 + la + lb
+    [.loadSel u k cur,
+     .dup, .loadVal 0, .strictEq, .jneP 3, .pop, .jump (CS.rel (pc + 15) (pc + 6)),
+     .dup, .loadVal 1, .strictEq, .jneP 3, .pop, .jump (CS.rel (pc + 15 + la) (pc + 12)),
+     .pop, .jump (CS.rel e (pc + 14))]
+      ++ gen a cur none (.switch_ e :: ctx) (pc + 15)
+      ++ gen b cur none (.switch_ e :: ctx) (pc + 15 + la)
   | .withS s, cur, _, ctx, pc =>
     [.loadVal 0, .enterWith] ++ gen s cur none (.with_ :: ctx) (pc + 2) ++ [.leaveWith]
   | .blk s, cur, _, ctx, pc =>
@@ -264,7 +282,7 @@ def stage1 : Stmt → Bool
   | .loop k id _ body => k != .forin && stage1 body && !(ids body).contains id
   | .forOf _ _ => false
   | .lbl _ s => stage1 s && (isLoop s || !isLbl s)
-  | .sw _ _ _ _ => false
+  | .sw _ _ a b => stage1 a && stage1 b
   | .withS s => stage1 s
   | .blk s => stage1 s
   | .ifIter _ s => stage1 s
